@@ -17,6 +17,7 @@ FAULTS = {
     'absent-stream-id': ('ghost', ('qartod', 'gross_range_test', {'fail_span': [Fr(0), Fr(10)]})),
     'raises-on-data': ('b', ('qartod', 'attenuated_signal_test', {'suspect_threshold': Fr(2), 'fail_threshold': Fr(1), 'check_type': 'nonsense'})),
     'needs-depth': ('a', ('qartod', 'density_inversion_test', {'suspect_threshold': Fr(-1)})),     # only a fault on a table without z
+    'aggregate-listed-as-test': ('a', ('qartod', 'aggregate', {})),      # documented spelling; aggregate() cannot run as a stream test
     'unknown-dotted-module': ('a', ('qartod.extras', 'some_test', {'x': 1})),
     'unknown-nested-module': ('b', ('vendor.checks', 'some_test', {'x': 1})),
 }
@@ -80,6 +81,9 @@ def run(ck):
                 ck.violate('C18.base', f'{fe}:healthy-run-raises', f'{fe}[{tname}]: the healthy config raises {base.error.exc}')
                 continue
             base_map = result_map(base)
+            base_collected = collected(ck, base) if tname == 'all-axes' else None     # (without axes collect_results itself fails: C06's known finding)
+            if isinstance(base_collected, str):
+                base_collected = None
             for fname, (sid, entry) in FAULTS.items():
                 if fname == 'needs-depth' and 'z' in table.axes:
                     continue
@@ -90,15 +94,15 @@ def run(ck):
                     places = ['middle']
                 for where in places:
                     contexts = [dict(window=(None, None), tests=insert(healthy(), sid, entry, where))]
-                    check_run(ck, fe, tname, fname, where, table, contexts, base_map, entry, sid)
+                    check_run(ck, fe, tname, fname, where, table, contexts, base_map, entry, sid, base_collected)
                 # the failing entry in a second context
                 contexts = [dict(window=(None, None), tests=healthy()), dict(window=(t(1), t(4)), tests={sid: [entry]})]
-                check_run(ck, fe, tname, fname, 'second-context', table, contexts, base_map, entry, sid)
+                check_run(ck, fe, tname, fname, 'second-context', table, contexts, base_map, entry, sid, base_collected)
     xarray_detached_variable(ck)
     ck.floor('C18.survivors', 200)
 
 
-def check_run(ck, fe, tname, fname, where, table, contexts, base_map, entry, sid):
+def check_run(ck, fe, tname, fname, where, table, contexts, base_map, entry, sid, base_collected=None):
     label = f'{fe}[{tname}] fault={fname} at {where}'
     hooks = ck.runner.interp.hooks
     saved = dict(hooks)
@@ -130,6 +134,39 @@ def check_run(ck, fe, tname, fname, where, table, contexts, base_map, entry, sid
         if k in got:
             equal_flags(ck, 'C18.survivors', f'{fe}:{fname}:healthy-result-changed', f'healthy {k[0]}:{k[2]}', StreamOutcome(r[4]),
                         f'{label} {k[0]}:{k[2]}', StreamOutcome(got[k][4]), label)
+    # the collected form (what a user finally reads): same results, same data / axis arrays as for the healthy run
+    if base_collected is not None and fe in ('numpy', 'pandas'):
+        col = collected(ck, run)
+        if isinstance(col, str):
+            ck.violate('C18.completes', f'{fe}:{fname}:collect-{col}', f'{label}: collect_results on the run {col}')
+            return
+        for key, b in base_collected.items():
+            g = col.get(key)
+            if g is None:
+                ck.violate('C18.survivors', f'{fe}:{fname}:collected-result-lost', f'{label}: the collected result {key} of the healthy run is missing')
+                continue
+            for fld in ('results', 'data', 'tinp', 'zinp', 'lat', 'lon'):
+                ck.ob('C18.survivors', f'{label} collected {key}.{fld}', sig(g.attrs.get(fld)) == sig(b.attrs.get(fld)), key=f'{fe}:{fname}:collected-{fld}-changed',
+                      what=f'{label}: collected {key}.{fld} is {sig(g.attrs.get(fld))}, with the healthy config alone it is {sig(b.attrs.get(fld))}')
+
+
+def sig(v):
+    from ..vec import Vec
+    if isinstance(v, Vec):
+        return [('--' if e.m is True else '') + X.show(e.d) for e in v.els()]
+    return repr(v)
+
+
+def collected(ck, run):
+    """collect_results(how='list') on the ContextResults of a run -> {(stream, package, test): CollectedResult} or a failure text"""
+    from ..interp import AbsRaise
+    it = ck.runner.interp
+    collect = it.module('ioos_qc.results').globals['collect_results']
+    try:
+        res = it.call(collect, [list(run.context_results)], dict(how='list'), None)
+    except AbsRaise as e:
+        return f'raises-{e.exc.tname}'
+    return {(cr.attrs['stream_id'], cr.attrs['package'], cr.attrs['test']): cr for cr in res}
 
 
 def xarray_detached_variable(ck):
